@@ -20,13 +20,18 @@ type C07Case struct {
 	Reverse bool `json:"reverse"`
 	// Straggler k > 0: the k-th work item replayed after the crash is taken up only when nothing else can run.
 	Straggler int `json:"straggler"`
+	// Hold > 0: the straggler also waits until that many more requests of the scenario have been issued
+	Hold int `json:"hold,omitempty"`
+	// Interrupted: the straggler is the item whose reconcile the crash interrupted (instead of the Straggler-th)
+	Interrupted bool `json:"interrupted,omitempty"`
 }
 
 func genC07(rt *rapid.T) C07Case {
 	sc := genScenario(rt, Profile{MinTargets: 1, MaxTargets: 2, MinSets: 2, MaxSets: 4, MultiTarget: true, Poison: true, Refuse: true, Rollbacks: true,
 		Offline: true, Preempt: 0, Drawn: false, MaxOpsPerTarget: 2})
 	return C07Case{Sc: sc, Pair: rapid.IntRange(-1, 12).Draw(rt, "pair"), Reverse: rapid.IntRange(0, 1).Draw(rt, "reverse") == 1,
-		Straggler: max(0, rapid.IntRange(-4, 12).Draw(rt, "straggler"))}
+		Straggler: max(0, rapid.IntRange(-4, 12).Draw(rt, "straggler")), Hold: max(0, rapid.IntRange(-1, 1).Draw(rt, "hold")),
+		Interrupted: rapid.IntRange(0, 2).Draw(rt, "interrupted") == 0}
 }
 
 func c07Final(r *Run, label string) error {
@@ -57,8 +62,13 @@ func runC07(c C07Case, x *vstat.Ctx) error {
 	if c.Reverse {
 		x.Class("replay-after-crash:newest-first")
 	}
-	if c.Straggler > 0 {
+	if c.Interrupted {
+		x.Class("replay-after-crash:the-interrupted-item-is-the-straggler")
+	} else if c.Straggler > 0 {
 		x.Class("replay-after-crash:one-straggler")
+	}
+	if c.Hold > 0 {
+		x.Class("replay-after-crash:the-next-request-arrives-before-the-straggler-is-taken-up")
 	}
 	for _, t := range c.Sc.Targets {
 		if !t.Online {
@@ -112,6 +122,11 @@ func runC07(c C07Case, x *vstat.Ctx) error {
 				w.S.CrashAt, w.S.CrashMid, w.S.CrashMidK = p.at, p.mid, p.k
 				w.S.ReverseReplay = c.Reverse
 				w.S.DeferReplayed = c.Straggler - 1
+				w.S.StragglerHold = c.Hold
+				w.S.DeferInterrupted = c.Interrupted
+				if c.Interrupted {
+					w.S.DeferReplayed = -1
+				}
 				if c.Pair >= 0 {
 					prev := w.S.OnRestart
 					w.S.OnRestart = func() {
